@@ -45,6 +45,17 @@ def extras(seed):
             bits = [[bool((a >> (k % 3)) & 1), bool(((a + k) >> 1) & 1), not bool(((a + k) >> 1) & 1)] for k in range(nt)]
             ms.append(dict(mask=bits, form="bool_rev", src="bool_rev"))
         tasks.append(dict(kind="gradbatch", lkind=lk, seed=seed, masks=ms))
+        # the same loss evaluated with a PARAMETER BATCH (a third key k3 arrives with the batch): every term goes through its
+        # vmapped-parameters path.  Masks: all / none, every single pair off, every single pair on, the strings, the default
+        pm = [dict(mask=[[True] * 3] * nt, form="bool", src="pbatch"), dict(mask=[[False] * 3] * nt, form="bool", src="pbatch")]
+        for t in range(nt):
+            for g in range(3):
+                for on in (True, False):
+                    pm.append(dict(mask=[[(on if (k, j) == (t, g) else not on) for j in range(3)] for k in range(nt)], form="bool", src="pbatch"))
+        for sname in names:
+            pm.append(dict(mask=[STR[sname]] * nt, form="str", strs=[sname] * nt, src="pbatch_str"))
+        pm.append(dict(mask=[[True, False, False]] * nt, form="default", src="pbatch_default"))
+        tasks.append(dict(kind="gradbatch", lkind=lk, seed=seed, masks=pm, pbatch=True))
     return tasks
 
 
@@ -63,7 +74,8 @@ def run(tier, seed):
              "(stationary), 32768 (non-stationary) masks (quick: all ODE masks, a stride-selected covering subset of the others); for each "
              "mask the gradient of the total loss w.r.t. the network parameters and each equation parameter must equal the exact sum, over "
              "the selected terms, of that term's gradient (measured once with everything selected), term values must not depend on the "
-             "mask; + the string form of every specification and the default; distinct = distinct mask",
+             "mask; + the string form of every specification and the default; + the same losses evaluated with a parameter batch "
+             "(vmapped-parameters path of every term); distinct = distinct mask",
         assumptions=["the network is u = V*k1 + k2 (affine output transform) so that every (term, group) pair has a non-zero gradient; exact "
                      "rationals under x64", "the per-term reference gradient is jax.grad of the term value returned by the same loss with every "
                      "pair selected"])
